@@ -17,6 +17,9 @@ const (
 	kindDeflate = "deflate" // regular file, deflated
 	kindDir     = "dir"     // S_IFDIR in the external attributes (the name is NOT touched: no '/' appended)
 	kindSymlink = "symlink" // S_IFLNK in the external attributes, content = link target
+	kindFifo    = "fifo"    // S_IFIFO: a named pipe (content ignored by whoever recreates one)
+	kindCharDev = "chardev" // S_IFCHR: a character device
+	kindSocket  = "socket"  // S_IFSOCK
 )
 
 type rawEntry struct {
@@ -31,6 +34,12 @@ func unixMode(kind string) uint32 {
 		return 0o040755
 	case kindSymlink:
 		return 0o120777
+	case kindFifo:
+		return 0o010644
+	case kindCharDev:
+		return 0o020644
+	case kindSocket:
+		return 0o140644
 	default:
 		return 0o100644
 	}
